@@ -13,7 +13,7 @@ import vlib, gnet
 import n07_model as M
 
 PERM_KINDS = ("pp", "pc", "po")
-QUICK_ALL_BASES = ("tr", "turn", "ax")          # kinds run on every base in the quick tier
+QUICK_ALL_BASES = ("tr", "turn", "turn0", "ax")          # kinds run on every base in the quick tier
 _words_cache = {}
 
 
@@ -162,7 +162,7 @@ def main():
     # order (deterministic; results are merged order-independently): the long jobs first -- these are the ones with the
     # id, permutation, degree and swap transitions -- then the short ones, small templates before net2d, so that a cut
     # by the deadline never removes a whole transition kind or template
-    prio = {"netc": 0, "netcy": 1, "net3d": 2, "lev": 3, "net2d": 4}
+    prio = {"netw": 0, "netc": 0, "netcy": 1, "net3d": 2, "lev": 3, "net2d": 4}
     def order(j):
         n = len(words_for(j[2], j[5]))
         return (0 if n > 60 else 1, prio[j[2]] if n <= 60 else 0, -n, j[2], j[3], j[4], j[5])
@@ -201,21 +201,25 @@ def main():
     rule = ("bases: net2d (3 fixed + 2 new points on {0,100,200}^2; 14 directions in 4 sets, 6 distances, 1 angle, 1 azimuth; 2 of the 5 clusters with band "
             "covariance matrices) x all 2^8 sign patterns of +-sigma on 8 observations; net3d (7 slope distances, 8 zenith angles) x 2^6; lev (7 height differences) x 2^6; "
             "netc (3 slope distances, observed coordinates of 2 points and 2 coordinate differences with full covariance matrices that couple only x,z rows and y rows among themselves) x 2^6; "
-            "netcy (the same with x-y and y-z covariances; translation and axes transitions only) x 2^6. "
-            "transitions (menu sizes %s): translation {(1e3,-2e3),(1e6,5e6)} (+500 m heights); zero of each direction set turned by {1e-4,100,199.9999,200,200.0001,399.9999} gon; "
+            "netcy (the same with x-y and y-z covariances; translation and axes transitions only) x 2^6; "
+            "netw (12 directions in 3 sets, 5 distances; bearings A->B = +2.5 cc and C->Q = 400 gon - 2.5 cc; translation, turn, turn0 and axes transitions) x 2^6. "
+            "transitions (menu sizes %s): translation {(1e3,-2e3),(1e6,5e6)} (+500 m heights); zero of each direction set turned by {1e-4,100,199.9999,200,200.0001,399.9999} gon; turn0: for every set and every one of its targets the zero turned so that "
+            "the reading of that target becomes eps above/below 0=400 gon (netw: eps in +-1, +-3, +-6 cc; net2d: +-1 cc), which together with the +-5 cc errors, the +-2.5 cc bearings of netw "
+            "and the mirrored frames puts reading, set orientation and bearing on either side of 0/400 (see the wrap(...) outcome classes); "
             "all permutations of point records, of clusters and of the observations of each cluster (<=5 items: all n!-1; 6 items: 5 cyclic shifts + reversal + 5 adjacent "
             "transpositions), covariance matrices permuted; 46 id maps (order reversing numeric; 10 numeric-looking families: 1, 9, 10, 18, 19, 20, 25 digits around 2^31, 2^32, 2^63-1, 2^64-1 with ids differing in the last digit, leading zeros, signed-looking, mixed; mixed 2-/3-/4-byte UTF-8; 40 characters; inner single blanks and no-break spaces; two generated families u2-0..15 / u3-0..15 of 2- and 3-byte UTF-8 ids whose continuation bytes between them take every value 0x80..0xBF in every position, with ids that differ in one continuation byte only and ids with an inner blank); gon -> d-m-s with stdev/covariances in arc seconds "
             "for every non-empty subset of clusters + alternating observations; ends swapped for every non-empty subset of the distances; 8 axes-xy x 2 angles. "
             % json.dumps(menu).replace('"', ""))
     if thorough:
         rule += ("thorough: every single transition on every base x 4 algorithms, plus all ordered pairs of distinct letters of the reduced menu "
-                 "(net2d 26, net3d 20, lev 10, netc 18 letters) on every base with algorithm = ALGS[pattern mod 4]. ")
+                 "(net2d 26, net3d 20, lev 10, netc 18, netw 15 letters) on every base with algorithm = ALGS[pattern mod 4]. ")
     else:
         rule += ("quick: translation/turn/axes transitions on every base with envelope and on every 4th pattern also with gso; all other single transitions on every 16th (net2d) / 8th (other templates) pattern (envelope and gso). ")
     rule += ("a state = one distinct (base network, word) input text, a transition = one gama-local execution; oracle per state: adjusted/fixed/approximate coordinates = affine image, "
              "residuals (adj-obs) equal (horizontal angular ones times the sense), echoed observation = written value, [pvv], dof, counts, m0, confidence scale, stdev/qrr/f/std-residual "
              "of every observation, ellipse axes equal; ellipse bearing, orientation shifts and the covariance matrix of the unknowns transformed as prescribed; non-trivial = input text differs from the base text")
-    ck.finish(rule, assumptions=[
+    wrap = {k[len("feature:"):]: v for k, v in sorted(ck.outcomes.items()) if k.startswith("feature:wrap(")}
+    ck.finish(rule, extra={"wrap_classes_of_direction_rhs": wrap}, assumptions=[
         "equivalence is defined by doc/gama-local-input.texi: axes-xy='ab' means x points to a and y to b; angles='left-handed' = clockwise readings; azimuths from North in the sense of angles; "
         "d-m-s values carry standard deviations and covariances in arc seconds, ss = cc*0.324 (the harness multiplies stdev by 0.324 and row+column of the covariance matrix by 0.324 per sexagesimal observation)",
         "transformations act on the input text only: angular values have 8 decimals (exact in the 10 printed), d-m-s strings are exact (integer arithmetic, 7 decimals of a second); coordinates are integers; "
